@@ -57,6 +57,21 @@ type nOuter struct {
 	L  []nInner
 	M  map[string]nInner
 }
+// no renaming tag at this level, a by-value nested struct whose own fields are renamed
+type nWrap struct {
+	Inner nInner
+	Addr  nAddr
+	N     int
+}
+type nAddr struct {
+	City string `clover:"city"`
+	Zip  uint32 `clover:"zip,omitempty"`
+	Geo  nGeo
+}
+type nGeo struct {
+	Lat float64 `clover:"lat"`
+	Lon float64
+}
 type nEmbed struct {
 	nInnerE
 	Z int
@@ -151,14 +166,14 @@ var structFamily = []reflect.Type{
 	reflect.TypeOf(nPlain{}), reflect.TypeOf(nTagged{}), reflect.TypeOf(nWithJSON{}), reflect.TypeOf(nInner{}), reflect.TypeOf(nOuter{}),
 	reflect.TypeOf(nEmbed{}), reflect.TypeOf(nEmbedExported{}), reflect.TypeOf(nEmbedPtr{}), reflect.TypeOf(nUnexp{}), reflect.TypeOf(nTimes{}),
 	reflect.TypeOf(nPtrs{}), reflect.TypeOf(nArrays{}), reflect.TypeOf(nIfaces{}), reflect.TypeOf(nWidths{}), reflect.TypeOf(nNamed{}),
-	reflect.TypeOf(nDeep{}), reflect.TypeOf(nMaps{}),
+	reflect.TypeOf(nDeep{}), reflect.TypeOf(nMaps{}), reflect.TypeOf(nWrap{}), reflect.TypeOf(nAddr{}),
 }
 
 // types whose round trip through Unmarshal is specified (no interface fields, no unexported fields)
 var roundTripFamily = []reflect.Type{
 	reflect.TypeOf(nPlain{}), reflect.TypeOf(nTagged{}), reflect.TypeOf(nWithJSON{}), reflect.TypeOf(nInner{}), reflect.TypeOf(nOuter{}),
 	reflect.TypeOf(nEmbedExported{}), reflect.TypeOf(nEmbedPtr{}), reflect.TypeOf(nTimes{}), reflect.TypeOf(nPtrs{}), reflect.TypeOf(nArrays{}),
-	reflect.TypeOf(nWidths{}), reflect.TypeOf(nNamed{}), reflect.TypeOf(nDeep{}), reflect.TypeOf(nMaps{}),
+	reflect.TypeOf(nWidths{}), reflect.TypeOf(nNamed{}), reflect.TypeOf(nDeep{}), reflect.TypeOf(nMaps{}), reflect.TypeOf(nWrap{}), reflect.TypeOf(nAddr{}),
 }
 
 var otherTypes = []reflect.Type{
